@@ -25,7 +25,10 @@ TARGETS = ["Tx3Proofs.C12"]
 THEOREMS = ["Tx3.Peg.engine_inv", "Tx3.Front.C12_engine_outcome", "Tx3.Front.C12_number_total",
             "Tx3.Front.C12_number_range", "Tx3.Front.C12_utxo_ref_total", "Tx3.Front.C12_bool_on_rule"]
 RULE = (
-    "cases = reproduced past failures; every examples/*.tx3; literal probes (boundary numerals, hex, UTxO references, "
+    "cases = reproduced past failures; definition graphs (1-4 types, 0-3 aliases, 0-4 locals and an input referring "
+    "to each other and to themselves at random: chains, cycles, undefined names, built-in aliases, several references "
+    "to one definition; 80 whose symbol graph is small, which must come back, and 4 of the recorded growth classes; "
+    "each in a process of its own); every examples/*.tx3; literal probes (boundary numerals, hex, UTxO references, "
     "strings with multi-byte characters, identifiers); random expansions of the grammar file itself from `program` "
     "(30%) and from 18 inner rules spliced into a valid frame (30%), budgeted depth 2-12 with random whitespace and "
     "comments between tokens; 1-3 token-level mutations (delete, duplicate, swap, splice from another file, literal "
